@@ -137,8 +137,8 @@ func policyV6(ctx *engine.Ctx) {
 		{},
 		{0xff, 0xff, 0xff, 0xff, 0xff, 0xff, 0xff, 0xff, 0xff, 0xff, 0xff, 0xff, 0xff, 0xff},
 		{0, 0, 0, 0, 0, 0, 0, 0, 0, 0, 0, 0, 0, 1},
-		{0, 0, 0, 0, 0, 0, 0, 0, 0xff, 0xff, 10, 0, 0, 1},   // looks mapped, is not (prefix non-zero) unless hi == 0
-		{0x0d, 0xb8, 0, 0, 0, 0, 0, 0, 0, 0, 0, 0, 0, 1},    // 2001:db8 when hi == 2001
+		{0, 0, 0, 0, 0, 0, 0, 0, 0xff, 0xff, 10, 0, 0, 1}, // looks mapped, is not (prefix non-zero) unless hi == 0
+		{0x0d, 0xb8, 0, 0, 0, 0, 0, 0, 0, 0, 0, 0, 0, 1},  // 2001:db8 when hi == 2001
 		{0x80, 0, 0, 0, 0, 0, 0, 0, 0, 0, 0, 0, 0, 0},
 		{0, 0, 0, 0, 0, 0, 0, 0, 0xff, 0xff, 0x5d, 0xb8, 0xd8, 0x22}, // ::ffff:93.184.216.34 when hi == 0
 		{0, 0, 0, 0, 0, 0, 0, 0, 0xff, 0xff, 127, 0, 0, 1},
@@ -175,8 +175,8 @@ func policyV6(ctx *engine.Ctx) {
 // ---- end to end ----
 
 type e2eCase struct {
-	Enc    string   `json:"enc"`   // ip4 | ip6 | mapped | lit4 | lit6 | litmapped | empty | name
-	Addr   string   `json:"addr"`  // address (or name)
+	Enc    string   `json:"enc"`  // ip4 | ip6 | mapped | lit4 | lit6 | litmapped | empty | name
+	Addr   string   `json:"addr"` // address (or name)
 	Answer []string `json:"answer,omitempty"`
 	Cipher int      `json:"cipher"`
 	Pos    int      `json:"pos,omitempty"` // udp: packet position of the probe in the association (0 = first)
@@ -615,8 +615,6 @@ func firstUse() *engine.Scenario {
 	}
 	return sc
 }
-
-func init() { engine.FreshRegistry["first-use"] = firstUse }
 
 func dialPairs() []*engine.Scenario {
 	return []*engine.Scenario{
